@@ -47,11 +47,7 @@ THEOREMS = [
     "SymmModel.C16.fromDense_error_indep",
     "SymmModel.C16.fromDense_ignores_invalid",
     "SymmModel.C16.fromDense_lossless_iff",
-    "SymmModel.C16.randIndex_wf_partial",
-    "SymmModel.C16.randIndex_wf_counterexample",
     "SymmModel.C16.randIndex_unsupported",
-    "SymmModel.C16.randZ2Index_wf_partial",
-    "SymmModel.C16.randZ2Index_minimal_counterexample",
     "SymmModel.C16.randZ2Z2Index_wf",
     "SymmModel.C16.randU1Index_wf",
     "SymmModel.C16.randU1U1Index_wf",
@@ -68,7 +64,10 @@ THEOREMS = [
     "SymmModel.C16.chooseDuals_spec",
     "SymmModel.C16.fillDtype_eq",
     "SymmModel.C16.randBlockSizes_spec",
-    "SymmModel.C16.getRand_valid"
+    "SymmModel.C16.getRand_valid",
+    "SymmModel.C16.randIndex_wf",
+    "SymmModel.C16.randZ2Index_wf",
+    "SymmModel.C16.randZ2Index_minimal_single_charge"
 ]
 LEAN_FILES = ["SymmModel.Props.C16", "SymmModel.Proofs.DenseLemmas", "SymmModel.Props.C16b", "SymmModel.Props.C16All", "SymmModel.Proofs.Dense3c", "SymmModel.Props.C16c", "SymmModel.Proofs.RandLemmas", "SymmModel.Model.Rand"]
 PLANNED = []
